@@ -42,6 +42,7 @@ internal/adapter/discovery/service.go
 S1FILES="
 internal/app/handlers/handler_provider_common.go
 internal/app/handlers/handler_proxy.go
+internal/app/handlers/handler_status_models.go
 internal/adapter/proxy/core/retry.go
 internal/adapter/security/request_rate_limit.go
 internal/adapter/stats/collector.go
